@@ -350,6 +350,118 @@ def run_c19(res, tier, seed):
     res.cov["samples"] = [{"request": reqs[i], "impl": io[i], "model": mo[i]} for i in (9, n_valid // 2, n_valid + 3) if i < len(reqs)]
 
 
+def run_c19_tagging(res, tier, seed):
+    """second half of C19: which identifiers get which tag, on the real highlight output"""
+    import gen_scope, p_ide
+    rng = random.Random(seed + 19)
+    n_ws = 120 if tier == "quick" else 2000
+    wss = [gen_scope.generate(seed * 65537 + i) for i in range(n_ws)]
+    batches = []
+    plans = []
+    for ws in wss:
+        qs, plan = [], []
+        for i, (p, t) in enumerate(ws.files):
+            if not p.endswith(".gleam"):
+                continue
+            qs.append(f"sem\t{i}")
+            n = len(t.encode())
+            rs = []
+            import re as _re
+            inside = [m.start() + 1 for m in _re.finditer(rb"\b(gg|Bb)\b", t.encode())]
+            for j in range(6):
+                a = rng.randrange(0, n + 1); b = rng.randrange(a, n + 1)
+                if inside and j < 3:
+                    # a range that ends (or starts) in the middle of an identifier
+                    cut = rng.choice(inside)
+                    a, b = (rng.randrange(0, cut + 1), cut) if j % 2 == 0 else (cut, rng.randrange(cut, n + 1))
+                rs.append((a, b))
+                qs.append(f"semrange\t{i}\t{a}\t{b}")
+            plan.append((i, rs))
+        batches.append((ws, qs))
+        plans.append(plan)
+    answers = p_ide.run_workspaces(batches)
+
+    def parse(line):
+        out = []
+        if line in ("empty", "none") or line.startswith("PANIC"):
+            return out
+        for h in line.split(";"):
+            rg, tag = h.split(":")
+            a, b = rg.split("-")
+            out.append((int(a), int(b), tag))
+        return out
+
+    nmod = 0
+    for ws, plan, ans in zip(wss, plans, answers):
+        k = 0
+        for (fi, rs) in plan:
+            full = parse(ans[k]); k += 1
+            res.cov["evaluations"] += 1 + len(rs)
+            tagged = {(a, b): t for a, b, t in full}
+            if len(tagged) != len(full) or full != sorted(full):
+                res.add_violation("C19/tagging/unsorted-or-duplicate", f"highlights of file {fi} are not strictly increasing: {full[:8]}", p_ide.replay_ws(ws, ws.occs[0], ans[k - 1][:300], None))
+            must, may = {}, set()
+            for o in ws.occs:
+                if o.file != fi:
+                    continue
+                e = o.expect
+                key = (o.offset, o.offset + len(o.name.encode()))
+                if o.stream != "core":
+                    may.add(key)        # streams with known resolution defects (C05): tagging follows resolution
+                    continue
+                if o.ns in ("value", "qualified-value", "constructor", "pattern-constructor") and e and e[0] == "M":
+                    if o.ns == "qualified-value" and e[1].kind == "const":
+                        continue
+                    if e[1].module != fi and p_ide.clash_known(ws, e[1]):
+                        may.add(key); continue      # known value/type import clash (C05)
+                    if e[1].kind == "fn":
+                        must[key] = "Function"
+                    elif e[1].kind == "variant":
+                        must[key] = "Constructor"
+                elif o.ns == "value" and e and e[0] == "L":
+                    if e[1].is_fn:
+                        must[key] = "Function"
+                    else:
+                        may.add(key)        # a local may be function-typed (parameter, alias of a function)
+                elif o.ns == "module":
+                    nmod += 1
+                    may.add(key)
+                elif o.ns in ("import-value",):
+                    may.add(key)
+            for d in ws.modules[fi].decls:
+                if d.kind == "variant":
+                    must[(d.offset, d.offset + len(d.name))] = "Constructor"
+                elif d.kind == "fn":
+                    may.add((d.offset, d.offset + len(d.name)))
+            bad = None
+            for key, t in must.items():
+                if tagged.get(key) != t:
+                    bad = f"identifier at {key} should be tagged {t}, is {tagged.get(key)}"
+                    break
+            if bad is None:
+                for key, t in tagged.items():
+                    if key not in must and key not in may:
+                        bad = f"token at {key} is tagged {t} but is no function/constructor/module identifier"
+                        break
+            if bad:
+                res.add_violation("C19/tagging/wrong-identifiers", bad, {"files": [{"path": p, "text": t} for p, t in ws.files], "query": f"sem\t{fi}", "impl": ans[k - 1][:500]})
+            for (a, b) in rs:
+                got = parse(ans[k]); k += 1
+                want = [h for h in full if h[0] < b and h[1] > a]
+                if a == b:
+                    continue
+                if got != want:
+                    res.add_violation("C19/tagging/range-request", f"highlights for the range {a}-{b} are {got[:6]}, the full answer restricted to it is {want[:6]}",
+                                      {"files": [{"path": p, "text": t} for p, t in ws.files], "query": f"semrange\t{fi}\t{a}\t{b}", "impl": ans[k - 1][:300]})
+    res.cov["tagging_workspaces"] = n_ws
+    # module identifiers are never tagged (HlTag::Module is never produced)
+    if nmod:
+        any_mod = any(":Module" in a for ans in answers for a in ans)
+        if not any_mod:
+            res.add_violation("C19/module-identifiers-not-tagged", f"{nmod} module identifiers (import paths, accessors of qualified uses) occur, none is tagged as module",
+                              {"note": "HlTag::Module is never produced by ide::ide::semantic_highlighting::highlight"})
+
+
 PROOF_MODULES = {"C13": ["Glas.Props.C13"], "C14": ["Glas.Props.C14"], "C19": ["Glas.Props.C19"]}
 
 
@@ -366,6 +478,11 @@ def run(prop, res, tier, seed):
         if not os.path.exists(common.DRIVER_BIN):
             return
     {"C13": run_c13, "C14": run_c14, "C19": run_c19}[prop](res, tier, seed)
+    if prop == "C19":
+        run_c19_tagging(res, tier, seed)
+    if prop == "C13":
+        import p_server
+        p_server.run_c13_blackbox(res, tier, seed)
     if res.disagreements:
         rq, a, b = res.disagreements[0]
         res.add_broken("correspondence model-vs-implementation (M-text)",
